@@ -39,12 +39,26 @@ CHECKS = {
         A_NOTE + " Delay adapters upstream of a push-notified adapter are not counted as delay material (they cannot take effect).",
         "DESIGN.md section 4, C04",
     ),
+    "C05": (
+        "model_checking",
+        "exhaustive enumeration of all component listing orders x all link creation orders for every configuration, each executed on the real Composition (fixed cyclic step lists) and compared differentially with the identity order",
+        "For every configuration of the stated domain (<=4 components, <=4 links, chains over the adapter alphabet without DelayToPush) every permutation of the component list and of link creation is run; exception class, exchanged metadata, final times and the full (time,value) series of every consumer must be identical. A purely differential oracle, no expected values.",
+        "Trusted: the harness components; identity order as reference. Cycles with positive-but-insufficient delay are excluded (C04 accepts either outcome there).",
+        "DESIGN.md section 4, C05",
+    ),
     "C10": (
         "fault_enumeration",
         "exhaustive enumeration of memory limits (every prefix of publications kept in RAM plus off-by-one around each threshold) x slot kind x payload kind x step pair, each executed through the real Composition and compared differentially with the unlimited run; directory listing observed around every update",
         "Every memory limit that changes which publications are kept in RAM is enumerated for every buffering slot kind and payload kind; the consumer's complete series must equal the unlimited run and the spill directory must be the only place files appear and be empty after run().",
         "Trusted: the unlimited run as reference (its correctness is C08/C11/C12's business); os.walk listings; horizon 6 h (quick) / 9 h (thorough).",
         "DESIGN.md section 4, C10",
+    ),
+    "C20": (
+        "model_checking",
+        A_TECH + "; plus exhaustive event sequences on a static output and an exhaustive product for WeightedSum",
+        "Static slots: every push/pull sequence up to depth 4/5 with all request-time kinds on real slots. Pull-based components: all schedules of compositions with one or two pull-based components are explored, each provider invocation must carry exactly the (delay-shifted) request time of the consumer and the C01 monitors stay green. WeightedSum: all unit combinations x consumer step pairs x listing orders against an arithmetic reference.",
+        A_NOTE,
+        "DESIGN.md section 4, C20",
     ),
     "C14": (
         "exploration",
